@@ -23,8 +23,12 @@ MANIFEST = {
     "text": "Coq theorems about an executable model of p?memory.c (two-ended user stack, MemInit with its retry loop, "
             "WorkInit/WorkFree, float-rounded return codes, info plumbing of p?gstrf/p?gssvx): query has no side effect, "
             "allocator safety under stack discipline, termination bound, failure code > n, sufficient buffer => all 13 arrays "
-            "inside, disjoint, aligned; plus _refuted theorems (vm_compute witnesses) where the faithful model of the "
-            "unchanged code violates the property text. Tied to /repo by a K-exact correspondence executed on every run.",
+            "inside, disjoint, aligned; P threads on the user stack, EVERY interleaving of their locked sections over the whole run "
+            "(WorkInit, work, WorkFree), any buffer alignment and element size: blocks of different threads never overlap, stay in "
+            "the tail region and are double-word aligned, the alignment fix-up of WorkInit is unreachable (after the repairs "
+            "d0e97e1 and 8832b60; the earlier _refuted witnesses of these two defects are replaced by these theorems); plus the "
+            "remaining _refuted theorems (vm_compute witnesses) where the faithful model of the current code violates the "
+            "property text. Tied to /repo by a K-exact correspondence executed on every run.",
     "note": "partial: the factorization itself is not modelled here (capacities only); system-allocator failure at an "
             "arbitrary site is enumerated (fault flavour), not proved; int_t overflow / float->int conversion beyond 2^31 "
             "not modelled; thread interleavings inside WorkInit are modelled (run_sched) but only observed at call granularity.",
@@ -263,6 +267,10 @@ def oracle_queries(case_lines, out_lines, prec):
             if res.startswith("I code=0") and " refact " in res:
                 # arrays unchanged; the tail (work arrays of the previous factorization) is reclaimed by this MemInit
                 live = []
+                if lwork is None or not glu:
+                    # refactorization without a successful first factorization in a user workspace: outside the contract
+                    lwork = None; glu = []
+                    continue
                 if lwork is not None and len(t) > 8 and int(t[8]) > 0 and int(t[8]) != lwork:
                     # a re-factorization must be given the workspace that holds L and U: another lwork is outside the contract
                     # (the block oracle is not evaluated on what follows; model and C are still compared)
@@ -377,6 +385,8 @@ def check_fn_batch(ctx, tools, prec, cases, fault, stats):
                         ctx.log("DEBUG workfree case: " + " | ".join(lines) + " || C: " + " | ".join(co))
                 else:
                     defect = "workinit_align_overlap"
+                    if os.environ.get("VERIF_DEBUG_C14"):
+                        ctx.log("DEBUG align case: " + " | ".join(lines) + " || C: " + " | ".join(co) + " || first=" + str(first))
             key = {"kind": "user_workspace", "defect": defect, "prec": PCH[prec]}
             diff = next(((a, b) for a, b in zip(co + ["<eof>"], mo + ["<eof>"]) if a != b), ("", ""))
             what = "blocks handed out by the real p%sgstrf_MemInit/WorkInit are outside [0,lwork) or overlap (%s; model %s)" % (
@@ -891,9 +901,9 @@ def run(ctx):
         "system-allocator failure at an arbitrary site is enumerated with the fault flavour, not proved",
         "int_t overflow and float->int conversion above 2^31 (info for > 2 GB) not modelled",
         "p?gstrf_expand with no_expand != 0 / p?gstrf_MemXpand not modelled (no caller in SRC)",
-        "interleavings inside WorkInit are modelled (run_sched / run_init: one safety theorem under alignment hypotheses, two _refuted "
-        "witnesses, refinement lemma to the sequential work_init) but the real threads are only observed at call granularity; the WorkFree "
-        "race is shown on the real threads with a timed schedule (observation hook used for delays only)",
+        "interleavings of WorkInit/WorkFree are modelled (run_sched: safety for every schedule, alignment and element size; refinement "
+        "lemma to the sequential work_init) but the real threads are only observed at call granularity; the real threads are raced with "
+        "a timed schedule and with random delays before every lock (lock_jitter), tight buffers repeated",
         "fault flavour is compiled with -Dmalloc=ledger_plain_malloc -Dfree=ledger_plain_free because the library mixes plain and "
         "SUPERLU_ allocation calls (reported as finding user_malloc_override)",
     ]
@@ -1005,6 +1015,18 @@ def replay(ctx, obj):
         n = None
         res = r and r["res"]
         bad = (not r) or (not r["end"].startswith("exit:0")) or (res and (res.get("canary") == "bad" or (res.get("info") == "0" and res.get("inbuf") == "bad")))
+        if not bad and int(rp.get("P", 1)) >= 2:
+            # a schedule-dependent failure: the case is repeated under the random delays before every lock that the sweep uses
+            m0 = re.search(r"CASE (\S+)", rp["case"])
+            text = "".join(rp["case"].replace("CASE " + m0.group(1), "CASE %s_%d" % (m0.group(1), i)) for i in range(120)) if m0 else rp["case"]
+            mm = re.search(r"MAT (\d+)", rp["case"])
+            nn = int(mm.group(1)) if mm else None
+            for rr in parse_drv(run_cases(exe, text, alarm=120, jitter=300)).values():
+                rs = rr["res"]
+                if (not rr["end"].startswith("exit:0")) or (rs and (rs.get("canary") == "bad" or str(rs.get("ustack", "")).startswith("bad")
+                                                                    or (rs.get("info") not in (None, "0") and nn and 0 < int(rs["info"]) <= nn))):
+                    r, res, bad = rr, rs, True
+                    break
         if res and not bad and res.get("info") == "0":
             bad = float(res.get("relerr", "nan")) > (1e-3 if prec in (0, 2) else 1e-9) or res.get("xmatch") == "0" and rp.get("P") == 1
         if res and not bad and "expect_info" in rp:
